@@ -86,6 +86,8 @@ CONVERGED_OVER_MIN = 0.25   # flagged-converged runs vs scipy minimum of the sam
 BREGMAN_FIXED_L_BOUND = {False: 1.0, True: 0.15}  # measured: unconverged <= 0.66, flagged-converged (tolerances 1e-6..1e-8) <= 0.047
 ANDERSON_SLACK = 30.0  # was 1e3 before fix fdff869; the mixture of earlier iterates inherits the conditioning-limited accuracy of their
 # direct solves on degenerate-mobility inputs (measured 2.7e-9 on the 1-D 'centre-zero' input, i.e. 2.7 x the plain tolerance)
+TOL_GEN_BREGMAN = 1e-4  # the shrink step thresholds (max(.,0)): under a non-power-of-two factor rounding can flip a face in / out of the
+# active set of an unconverged iterate (measured 3e-6 on 4x5 after 200 iterations); power-of-two factors stay at 1e-9
 TOL_TIE = 1e-9     # returned distance vs independently recomputed cost of the returned flux
 TOL_FEAS = 1e-8    # mass conservation of the returned flux relative to max|rhs| (direct linear solves; observed <= 1e-13)
 
@@ -353,7 +355,7 @@ def run_case(cfg):
     if not (np.array_equal(ia.img, m1) and np.array_equal(ib.img, m2)):
         fail(f"C05:modifies-input:{method}", f"{cls}: wasserstein_distance changed the caller's images")
     # (vi) scaling of both masses; for Bregman the regularisation parameter L ("approximate flux norm") is scaled along
-    for s, tol, tag in ((cfg["pow2"], TOL_EXACT, "pow2"), (cfg["gen"], TOL_GEN, "generic")):
+    for s, tol, tag in ((cfg["pow2"], TOL_EXACT, "pow2"), (cfg["gen"], TOL_GEN_BREGMAN if method == "bregman" else TOL_GEN, "generic")):
         rr = go(s * m1, s * m2, L=s if method == "bregman" else 1.0, reg=s)
         if isinstance(rr, Raised):
             fail(f"C05:scale:raises:{method}", f"{cls}: scaled pair raises {rr}")
@@ -801,6 +803,7 @@ def thin_correspondence(ctx, d):
     model = ctx.model([c["req"] for c in cases])
     bad = 0
     worst = 0.0
+    degenerate_seen = []
     for c, r, m in zip(cases, res, model):
         ctx.count(("thin", c["req"], c["method"], c["mob"]))
         rp = {k: c[k] for k in ("shape", "hs", "m1", "m2", "method", "mob", "l1")} | {"num_iter": 100, "variant": c["var"]}
@@ -820,6 +823,19 @@ def thin_correspondence(ctx, d):
         dist, U_axes = r[1], r[2]
         got_u = np.array(U_axes[c["a"]])
         sl = variant_slack(c["var"])
+        # input class "degenerate mobility": the unique flux vanishes EXACTLY on a face (only dyadic data do that). The mobility
+        # weights there reach 1/regularization, the linear systems have condition 1e16 and Newton's iterates lose mass conservation
+        # (C04's known class `degenerate-mobility`); reported under its own bounded signature
+        if any(x == 0.0 for x in uf) and c["method"] == "newton":
+            du = float(np.max(np.abs(np.array(uf) - got_u)) / max(1.0, float(np.max(np.abs(uf))))) if len(uf) == len(got_u) and len(uf) else float("inf")
+            dd = abs(dist - want) / max(want, 1e-12)
+            degenerate_seen.append((c["shape"], c["mob"], c["var"], du, dd))
+            if du > sl * 1e-9 or dd > sl * 1e-9:
+                bound_ok = du <= 0.10 and dd <= 0.02
+                ctx.fail("C05:thin-grid:degenerate-mobility:newton:flux<=10%:distance<=2%" if bound_ok else "C05:thin-grid:degenerate-mobility:newton:beyond-bounds",
+                         f"grid {tuple(c['shape'])} {c['l1']} {c['mob']} variant {c['var']}: the unique flux vanishes on a face; Newton returns a flux off by {du:.3g} (relative) and "
+                         f"distance {dist!r} instead of {want!r} (relative {dd:.3g})", {**rp, "distance": dist, "closed_form": want})
+            continue
         if len(uf) != len(got_u) or (len(uf) and np.max(np.abs(np.array(uf) - got_u)) > sl * 1e-9 * max(1.0, float(np.max(np.abs(uf))))):
             ctx.fail(f"C05:thin-grid:flux:{c['method']}", f"grid {tuple(c['shape'])}: returned flux differs from the unique mass-conserving flux (prefix sums)",
                      {**rp, "model_flux": uf, "impl_flux": got_u.tolist()})
@@ -828,6 +844,7 @@ def thin_correspondence(ctx, d):
             ctx.fail(f"C05:thin-grid:mobility={c['mob']}:{c['method']}", f"grid {tuple(c['shape'])} {c['l1']}: distance {dist!r} but the unique mass-conserving flux costs {want!r} (exact model value)",
                      {**rp, "distance": dist, "closed_form": want})
     ctx.cov.setdefault("correspondence", {})["thin-unique-flux-and-cost(model exact vs solver, rel 1e-9)"] = {"cases": len(cases), "disagreements": bad, "max_rel_err": worst}
+    ctx.cov["thin_degenerate_mobility_newton_cases(shape, mobility, variant, flux dev, distance dev)"] = degenerate_seen[:40]
     if bad:
         ctx.mark("TIE-BROKEN", {"correspondence": "thin-unique-flux-and-cost", "bad_model_lines": bad, "request": first[0], "model": first[1]})
 
